@@ -1,1 +1,158 @@
-/- C03: property theorems (not yet built). -/
+/- C03 — Evaluation is call-by-need: nothing unneeded runs, nothing shared runs twice (partial).
+   (1) the memo automaton behind thunks, array cells and the object field cache: for EVERY history
+       of (re-entrant) reads the body runs at most once, later reads repeat the first result, a
+       read during evaluation is reported as infinite recursion and does not disturb the cell;
+   (2) neededness in the definitional interpreter: the branch not taken and the right operand of a
+       short-circuited `&&`/`||` cannot influence the outcome, the store or the trace. -/
+import JrsVerif.Model.Thunk
+import JrsVerif.Model.Eval
+
+namespace JrsVerif.Thunk
+
+/-- reachable states: `pending` is entered only through a start -/
+theorem step_starts_only_from_waiting (s : St) (e : Ev) : (step s e).2 = .started → s = .waiting := by
+  cases s <;> cases e <;> simp [step]
+  all_goals (rename_i r; cases r <;> simp [step])
+
+theorem step_leaves_waiting (s : St) (e : Ev) : (step s e).1 = .waiting → s = .waiting := by
+  cases s <;> cases e <;> simp [step]
+  all_goals (rename_i r; cases r <;> simp [step])
+
+/-- C03.1a  for every history from any state that is not `waiting`, the body never starts;
+    from `waiting` it starts at most once -/
+theorem run_starts_le (s : St) (es : List Ev) :
+    starts (run s es).2 ≤ (if s = .waiting then 1 else 0) := by
+  induction es generalizing s with
+  | nil => simp [run, starts]
+  | cons e es ih =>
+    simp only [run]
+    have h1 := ih (step s e).1
+    cases s <;> cases e <;> simp_all [step, starts, List.filter_cons]
+    all_goals first
+      | omega
+      | (rename_i r; cases r <;> simp_all [step] <;> omega)
+
+/-- C03.1  "evaluated at most once however many times it is used": in any history of reads,
+    re-entrant or not, on a fresh cell the body is started at most once. -/
+theorem thunk_runs_once (es : List Ev) : starts (run .waiting es).2 ≤ 1 := by
+  simpa using run_starts_le .waiting es
+
+/-- C03.1b  once a result is stored, every later read returns it and nothing changes -/
+theorem thunk_stable (s : St) (r : Res) (h : final? s = some r) (es : List Ev) :
+    (run s es).1 = s ∧ ∀ o ∈ (run s es).2, o = .answer r ∨ o = .bad := by
+  induction es with
+  | nil => simp [run]
+  | cons e es ih =>
+    cases s with
+    | waiting => simp [final?] at h
+    | pending => simp [final?] at h
+    | computed v =>
+      simp only [final?, Option.some.injEq] at h
+      subst h
+      cases e <;> simp_all [run, step]
+    | errored x =>
+      simp only [final?, Option.some.injEq] at h
+      subst h
+      cases e <;> simp_all [run, step]
+
+/-- C03.1c  a read while the body is running is reported as infinite recursion and leaves the
+    cell pending, so the outer evaluation still completes normally -/
+theorem thunk_reentrant (r : Res) :
+    step .pending .get = (.pending, .answer .infrec) ∧
+    (step (step .pending .get).1 (.ret r)).2 = .completed r ∧
+    final? (step .pending (.ret r)).1 = some r := by
+  cases r <;> simp [step, final?]
+
+/-- a value that depends on itself: the first read starts the body, the body reads the cell again
+    and gets `infrec`, which becomes the stored result (C04 "reported as infinite recursion") -/
+theorem self_dependent_is_infrec :
+    (run .waiting [.get, .get, .ret .infrec, .get]).2
+      = [.started, .answer .infrec, .completed .infrec, .answer .infrec] := by
+  decide
+
+/-- the scripted closure used by the harness is an instance of the automaton -/
+theorem getScripted_eq_run (sc : Script) :
+    let evs := Ev.get :: (List.replicate sc.reenters Ev.get ++ [Ev.ret sc.final])
+    (getScripted .waiting sc).1 = (run .waiting evs).1 := by
+  simp only [getScripted]
+  have hrep : ∀ n es, run .pending (List.replicate n Ev.get ++ es)
+      = ((run .pending es).1, List.replicate n (Out.answer .infrec) ++ (run .pending es).2) := by
+    intro n es
+    induction n with
+    | zero => simp
+    | succ n ih => simp [List.replicate_succ, run, step, ih]
+  cases hf : sc.final <;> simp [run, step, hrep]
+
+/-! #### keyed cells: a read of one key never touches another (arrays, object cache) -/
+
+/-- C03.2  frame property: events on key `k` leave every other cell unchanged, so two reads by
+    the same access path (same key) hit the same cell and reads by different paths are independent -/
+theorem stepK_frame {κ : Type} [DecidableEq κ] (c : Cells κ) (k k' : κ) (e : Ev) (h : k' ≠ k) :
+    (stepK c k e).1 k' = c k' := by
+  simp [stepK, h]
+
+theorem stepK_same {κ : Type} [DecidableEq κ] (c : Cells κ) (k : κ) (e : Ev) :
+    (stepK c k e).1 k = (step (c k) e).1 ∧ (stepK c k e).2 = (step (c k) e).2 := by
+  simp [stepK]
+
+/-- per key, a keyed history is the automaton's history of that key's events -/
+theorem runK_project {κ : Type} [DecidableEq κ] (c : Cells κ) (es : List (κ × Ev)) (k : κ) :
+    (runK c es).1 k = (run (c k) ((es.filter (fun p => p.1 = k)).map (·.2))).1 := by
+  induction es generalizing c with
+  | nil => simp [runK, run]
+  | cons p es ih =>
+    obtain ⟨k0, e⟩ := p
+    simp only [runK]
+    rw [ih]
+    by_cases hk : k0 = k
+    · subst hk
+      simp [List.filter_cons, run, (stepK_same c k0 e).1]
+    · have : (stepK c k0 e).1 k = c k := stepK_frame c k0 k e (Ne.symm hk)
+      simp [List.filter_cons, hk, this]
+
+/-- hence every cell of an array / every (field, layer) cache entry runs its body at most once,
+    for every interleaved history over all keys -/
+theorem cells_run_once {κ : Type} [DecidableEq κ] (es : List (κ × Ev)) (k : κ) :
+    starts (run .waiting ((es.filter (fun p => p.1 = k)).map (·.2))).2 ≤ 1 :=
+  thunk_runs_once _
+
+end JrsVerif.Thunk
+
+namespace JrsVerif.Eval
+
+/-- C03.3a  the branch not taken is not needed: when the condition evaluates to `true`, the
+    whole outcome — value or error, store, trace — is the same whatever the `else` branch is -/
+theorem if_else_branch_unneeded (n : Nat) (c : Ctx) (cnd t e e' : Expr) (s s' : St)
+    (h : (run n (.eval c cnd)).run.run s = (.ok (.val (.bool true)), s')) :
+    (run (n + 1) (.eval c (.ifE cnd t (some e)))).run.run s
+      = (run (n + 1) (.eval c (.ifE cnd t (some e')))).run.run s := by
+  simp only [run, expectVal, bind, ExceptT.bind, ExceptT.mk, ExceptT.run, StateT.bind, StateT.run,
+    ExceptT.bindCont] at h ⊢
+  simp only [h, pure, ExceptT.pure, ExceptT.mk, StateT.pure]
+
+theorem if_then_branch_unneeded (n : Nat) (c : Ctx) (cnd t t' e : Expr) (s s' : St)
+    (h : (run n (.eval c cnd)).run.run s = (.ok (.val (.bool false)), s')) :
+    (run (n + 1) (.eval c (.ifE cnd t (some e)))).run.run s
+      = (run (n + 1) (.eval c (.ifE cnd t' (some e)))).run.run s := by
+  simp only [run, expectVal, bind, ExceptT.bind, ExceptT.mk, ExceptT.run, StateT.bind, StateT.run,
+    ExceptT.bindCont] at h ⊢
+  simp only [h, pure, ExceptT.pure, ExceptT.mk, StateT.pure]
+
+/-- C03.3b  `false && e` and `true || e` do not need `e` -/
+theorem and_short_circuit (n : Nat) (c : Ctx) (a b b' : Expr) (s s' : St)
+    (h : (run n (.eval c a)).run.run s = (.ok (.val (.bool false)), s')) :
+    (run (n + 1) (.eval c (.binary .and a b))).run.run s
+      = (run (n + 1) (.eval c (.binary .and a b'))).run.run s := by
+  simp only [run, expectVal, bind, ExceptT.bind, ExceptT.mk, ExceptT.run, StateT.bind, StateT.run,
+    ExceptT.bindCont] at h ⊢
+  simp only [h, pure, ExceptT.pure, ExceptT.mk, StateT.pure]
+
+theorem or_short_circuit (n : Nat) (c : Ctx) (a b b' : Expr) (s s' : St)
+    (h : (run n (.eval c a)).run.run s = (.ok (.val (.bool true)), s')) :
+    (run (n + 1) (.eval c (.binary .or a b))).run.run s
+      = (run (n + 1) (.eval c (.binary .or a b'))).run.run s := by
+  simp only [run, expectVal, bind, ExceptT.bind, ExceptT.mk, ExceptT.run, StateT.bind, StateT.run,
+    ExceptT.bindCont] at h ⊢
+  simp only [h, pure, ExceptT.pure, ExceptT.mk, StateT.pure]
+
+end JrsVerif.Eval
